@@ -656,6 +656,15 @@ pub fn emit_case(rng: &mut Rng, bytes0: &[u8], out: &mut Vec<String>, native_fri
     let ea = ea_of(&regs);
     out.push(format!("new {} {:x} {:x}", hex(&bytes), code_base, code_base));
     out.push(dec_line(&bytes, code_base, code_base)?);
+    // forms the emulator does not implement are never executed natively (a `mov fs, bx` loads a segment register of the
+    // oracle process itself); they are compared between implementation and model only — both refuse them
+    {
+        static IMPLEMENTED: &str = include_str!("../../inventory/implemented_codes.txt");
+        let name = format!("{:?}", ins.code());
+        if !IMPLEMENTED.split_whitespace().any(|c| c == name) {
+            out.push("nonative".into());
+        }
+    }
     let mut rv: Vec<String> = regs.iter().map(|r| format!("{:x}", r)).collect();
     rv.push(format!("{:x}", code_base));
     out.push(format!("areaz {:x} {:x} {:x} Stack", stack_base, stack_len, rng.next()));
